@@ -125,6 +125,15 @@ var _ = bytes.Equal
 
 // VerifH_C04_crash: a fixed small graph, then one mutating call during which the
 // process dies before the crashAt-th top-level store write; reopen; invariant.
+func c04Has(l []string, s string) bool {
+	for _, x := range l {
+		if x == s {
+			return true
+		}
+	}
+	return false
+}
+
 func VerifH_C04_crash() {
 	kv := vNewKV()
 	db := NewKVGraph(kv).(*KVGraph)
@@ -201,6 +210,19 @@ func VerifH_C04_crash() {
 		vReach("crash.none")
 	}
 	c04Invariant(kv, gi2, "g")
+	// life goes on after the crash: whatever graph is listed now is fully usable, i.e.
+	// elements written from here on are found through the label index too (a graph
+	// created by a crashed AddGraph is either absent or complete)
+	for _, name := range []string{"g", "h"} {
+		if gx, err := db2.Graph(name); err == nil {
+			gx.AddVertex([]*gdbi.Vertex{{ID: "w", Label: "W", Data: map[string]interface{}{}}})
+			gx.AddEdge([]*gdbi.Edge{{ID: "x", From: "w", To: "w", Label: "X", Data: map[string]interface{}{}}})
+			scan := c16LabelScan(gx, "W")
+			vl, _ := gx.ListVertexLabels()
+			el, _ := gx.ListEdgeLabels()
+			vAssert("C04.crash.usable-after-restart", len(scan) == 1 && scan[0] == "w" && c04Has(vl, "W") && c04Has(el, "X"))
+		}
+	}
 	// z and y were acknowledged before the crash and are not the target of the crashed call
 	if op != 6 {
 		z := gi2.GetVertex("z", true)
